@@ -337,11 +337,6 @@ func step3(in []kit.Tri, rep0 *kit.TopoReport, op op3, o *kit.Obs) (out []kit.Tr
 		if !sameTris(in, out) {
 			o.Label("flip:flipped")
 		}
-		if minAspect(out) < 1e-9 {
-			// flips across a fold can leave a face without area; like such a face in the input it has no angles, and
-			// the Delaunay condition says nothing about it (topology and vertex set were checked above)
-			return out, "degenerate:zero-area-face(after flips)", nil
-		}
 		// documented postcondition: the mesh is Delaunay (opposite angles sum to <= pi); the
 		// library's threshold is pi+1e-8 on acos-derived angles whose error is <= ~3e-8
 		// An edge whose two apexes are already joined by an edge (or coincide) cannot be flipped in a
@@ -361,19 +356,6 @@ func step3(in []kit.Tri, rep0 *kit.TopoReport, op op3, o *kit.Obs) (out []kit.Tr
 			for _, k := range opp[e] {
 				u, w := im.V[e[0]].Sub(im.V[k]), im.V[e[1]].Sub(im.V[k])
 				s += math.Atan2(u.Cross(w).Norm(), u.Dot(w))
-			}
-			// On a surface that is folded along the edge the flipped pair of faces can be as bad as the current one
-			// (flat meshes: the two sums add up to 2 pi, so one of them is below pi; folded ones: both can exceed it):
-			// such an edge cannot be improved by a flip and is left alone - what must not remain is an edge whose flip
-			// would lower the sum.
-			s2 := 0.0
-			for _, q := range e {
-				u, w := im.V[opp[e][0]].Sub(im.V[q]), im.V[opp[e][1]].Sub(im.V[q])
-				s2 += math.Atan2(u.Cross(w).Norm(), u.Dot(w))
-			}
-			if s > math.Pi+1e-6 && !(s2 < s-1e-6) {
-				o.Label("flip:folded-edge-left-alone")
-				continue
 			}
 			if s > math.Pi+1e-6 {
 				err = fmt.Errorf("%s: edge %v-%v still has opposite angles summing to pi+%.3g (not Delaunay)", what, im.V[e[0]], im.V[e[1]], s-math.Pi)
